@@ -2,11 +2,14 @@
 """collect confirmed sub-agent seeds into /verif/seeded/<Cxx-k>/ with meta.json"""
 import json, os, re, shutil, sys
 OUT = "/verif/seeded"
+JOBS = []
 for p in ["C%02d" % i for i in range(1, 21)]:
     for k in (1, 2, 3):
-        src = "/tmp/seed-%s/%d" % (p, k)
-        conf = "/tmp/confirm/%s-%d.json" % (p, k)
-        run = "/tmp/seedrun/%s-%d.txt" % (p, k)
+        JOBS.append((p, k, "/tmp/seed-%s/%d" % (p, k), "/tmp/confirm/%s-%d.json" % (p, k), "/tmp/seedrun/%s-%d.txt" % (p, k), "round 1: free choice of defect"))
+    for k in (1, 2):
+        JOBS.append((p, k + 3, "/tmp/seed2-%s/%d" % (p, k), "/tmp/confirm2/%s-%d.json" % (p, k), "/tmp/seedrun2/%s-%d.txt" % (p, k), "round 2: asked for defects in the logic around the arithmetic (guards, dispatch, special cases, canonical form, configuration), not in digit loops"))
+for (p, k, src, conf, run, rnd) in JOBS:
+    if True:
         if not (os.path.exists(src + "/patch.diff") and os.path.exists(conf)):
             print("skip", p, k); continue
         c = json.load(open(conf))
@@ -37,7 +40,7 @@ for p in ["C%02d" % i for i in range(1, 21)]:
             "property": p,
             "title": title,
             "needs_to_manifest": needs or "see notes.md",
-            "produced_by": "fresh sub-agent given only the property text and a private worktree of /repo",
+            "produced_by": "fresh sub-agent given only the property text and a private worktree of /repo (" + rnd + ")",
             "confirmed_here": {
                 "how": "nbsa/confirm_seed.sh: scratch copy of /repo; demo copied to tests/; cargo test --offline [flags from the demo header] on the clean tree, then with patch.diff applied (also --release when the demo asks for it); then the whole existing suite with the patch",
                 "demo_without_patch": c["demo_without_patch"].strip(),
